@@ -58,9 +58,23 @@ def axes(tier):
     return out, sorted(set(pert))
 
 
+SCALES = (1e-12, 1e-9, 1e-6, 1e-3, 1e3, 1e9)
+
+
+def scaled_axes(tier):
+    """The rotation does not depend on the length of the axis: every sign pattern of {-1,0,1}^3 and a few generic axes, rescaled."""
+    base = [ax for ax in itertools.product((-1.0, 0.0, 1.0), repeat=3) if any(ax)] + [(1.0, 2.0, 3.0), (-0.5, 2.0, -1.0), (2.0, -0.5, 0.5)]
+    out = []
+    for ax in base:
+        for sc in (SCALES if tier == 'thorough' else SCALES[:2] + SCALES[-1:]):
+            out.append(tuple(c * sc for c in ax))
+    return out
+
+
 def plan(tier, seed):
     exact, pert = axes(tier)
-    shards = [('exact', exact[i::32]) for i in range(32)] + [('pert', pert[i::16]) for i in range(16)]
+    scaled = scaled_axes(tier)
+    shards = [('exact', exact[i::32]) for i in range(32)] + [('pert', pert[i::16]) for i in range(16)] + [('scaled', scaled[i::8]) for i in range(8)]
     return dict(shards=shards, exhaustive=True,
                 rule=('all axes in {-2,-1,-.5,0,.5,1,2}^3 minus 0 (342) plus every zero component of those replaced by '
                       '+-1e-9 (thorough: also 1e-12, 1e-6); angles k*15 deg, +-109.5, +-pi, 2pi, -120, -90, 1e-9 '
@@ -81,6 +95,9 @@ def rodrigues(theta, k, v):
 
 
 def family(ax):
+    big = max(abs(c) for c in ax)
+    if big < 1e-4 or big > 1e2:
+        return 'scaled-%s/%s' % ('short' if big < 1 else 'long', ''.join('+' if c > 0 else '-' if c < 0 else '0' for c in ax))
     z = tuple(0 if abs(c) == 0.0 else (2 if abs(c) < 1e-5 else 1) for c in ax)
     names = {0: '0', 1: 'x', 2: 'e'}
     sg = ''.join('+' if c > 0 else '-' if c < 0 else '0' for c in ax)
@@ -122,7 +139,7 @@ def vectors(ax):
 def run_shard(shard, ctx):
     acc = Acc()
     kind, axs = shard
-    tol = 1e-9 if kind == 'exact' else 1e-6
+    tol = 1e-6 if kind == 'pert' else 1e-9
     angs = angles(ctx.tier)
     for ax in axs:
         seen = 0
